@@ -220,6 +220,35 @@ pub fn k_c09_fri_overlong_remainder_rejected() {
     vcheck!("C09.fri.remainder_one_longer_than_bound_rejected", res.is_err());
 }
 
+/// zero FRI layers, a fixed committed remainder r(x) (coefficients in reverse order, as sent): the queried
+/// evaluation is accepted exactly when it is r evaluated at the queried domain point offset * g^position
+fn remainder_evaluation_exact(pos: usize) {
+    // reverse order: r(x) = 5 x + 3
+    let remainder = alloc::vec![F64::new(5), F64::new(3)];
+    let commitment = HM::hash_elements(&remainder);
+    let mut ch = MockChannel { commitments: alloc::vec![commitment], remainder, queries: Vec::new(), proof: 0 };
+    let mut coin = MockCoin;
+    let opts = FriOptions::new(2, 2, 3);
+    let v = FriVerifier::<F64, MockChannel, HM, MockCoin, RecVC>::new(&mut ch, &mut coin, opts, 3).unwrap();
+    // the 8-point evaluation domain: offset * g^pos
+    let x = v.options().domain_offset::<F64>() * F64::get_root_of_unity(3).exp_vartime(pos as u64);
+    let expected = F64::new(5) * x + F64::new(3);
+    let ev = any_elem();
+    let res = v.verify(&mut ch, &[ev], &[pos]);
+    vcheck!("C09.fri.remainder.evaluation_accepted_iff_on_the_committed_polynomial", res.is_ok() == (ev.inner() == expected.inner()));
+}
+
+//# harness: fn=FriVerifier::verify, verify_generic::<2> (zero FRI layers: queried evaluation against the remainder polynomial), eval_horner_rev; label=bounded(domain 8, fixed 2-coefficient remainder, positions 0, 3 and 6; every queried evaluation); tier=quick; props=C09; uses=remainder_evaluation_exact,any_elem; timeout=900
+#[cfg_attr(kani, kani::proof)]
+#[cfg_attr(kani, kani::unwind(66))]
+#[cfg_attr(kani, kani::stub(alloc::fmt::format, vs::fake_format))]
+pub fn k_c09_fri_remainder_evaluation_exact() {
+    remainder_evaluation_exact(0);
+    remainder_evaluation_exact(3);
+    remainder_evaluation_exact(6);
+    vreach!("C09.fri.remainder_eval.reach");
+}
+
 //# harness: fn=FriVerifier::verify (argument checks); label=complete; tier=quick; props=C09; timeout=600
 #[cfg_attr(kani, kani::proof)]
 #[cfg_attr(kani, kani::unwind(66))]
